@@ -198,7 +198,7 @@ func lifeFamily(id, tier string, p map[string]bool, tweak func(kind string, o *L
 	// gateway picks it up with MsgReady at any later height (midpoint jumps: before and after created+timeout)
 	pi := r1Life(id, tier, p)
 	pi.ID = id + "-life-pending"
-	pi.SidOwner, pi.Pending, pi.Mid, pi.Cancel = true, true, true, true
+	pi.SidOwner, pi.Pending, pi.Mid, pi.Cancel, pi.Update = true, true, true, true, true
 	pi.Drain, pi.Migrate, pi.Renew, pi.Claim = false, false, false, false
 	pi.Depth = 6
 	if tier == "thorough" {
